@@ -4,6 +4,7 @@ import Gpv.Drv.P2
 import Gpv.Drv.Pipe
 import Gpv.Drv.Misc
 import Gpv.Drv.Alias
+import Gpv.Drv.Reentrant
 open Gpv Gpv.Drv
 
 structure DSt where
@@ -19,6 +20,7 @@ def dispatch (st : DSt) (line : String) : DSt × List String :=
       ({ st with acc := a }, out)
     else if w.startsWith "p2f." || w.startsWith "p2q." then (st, p2Dispatch ws)
     else if w.startsWith "pipe." then (st, pipeDispatch ws)
+    else if w.startsWith "res.echo" then (st, resEchoDispatch ws)
     else if w.startsWith "res." then (st, resDispatch ws)
     else if w.startsWith "cache." then (st, cacheDispatch ws)
     else if w.startsWith "strm." then (st, strmDispatch ws)
